@@ -80,7 +80,34 @@ def iff_cases(cx):
     return cases
 
 
-GROUPS = {"utf8": utf8_cases, "hash": hash_cases, "iff": iff_cases}
+def ht_cases(cx):
+    rng = cx.sub_rng("fn-ht")
+    edge = [0, 1, 2, 3, 4, 5, 7, 8, 9, 15, 16, 17, 255, 256, 257, 65535, 65536, 65537, 2**31 - 1, 2**31, 2**31 + 1, 2**32 - 2, 2**32 - 1]
+    cases = ["fixedsize %d" % n for n in edge + [2**k + d for k in range(1, 32) for d in (-1, 0, 1)] + [rng.randrange(2**32) for _ in range(cx.n(500, 20000))]]
+    sizes = [2**k for k in range(0, 32)] + [3, 5, 12, 100, 1000]
+    for _ in range(cx.n(2500, 60000)):
+        size = rng.choice(sizes)
+        pct = rng.choice((0, 24, 25, 26, 49, 50, 51, 74, 75, 76, 99, 100, 101, rng.randrange(0, 130)))
+        used = max(0, min(2**32 - 1, size * pct // 100 + rng.choice((-1, 0, 0, 1))))
+        if rng.random() < 0.05: used = rng.choice((42949672, 42949673, 2**32 - 1, rng.randrange(2**32)))      # used * 100 wraps
+        cases.append("grow %d %d %d" % (used, size, rng.choice((0, 1, 2, 2, 3, 65535))))
+        cases.append("shrink %d %d" % (used, size))
+    return cases
+
+
+def lyb_cases(cx):
+    rng = cx.sub_rng("fn-lyb")
+    cases = []
+    for cid in range(0, 8):
+        for h in list(range(256)) + [0x100, 0xFFFFFF00, 0xFFFFFFFF, 0x80000000] + [rng.randrange(2**32) for _ in range(cx.n(40, 2000))]:
+            cases.append("lybmask %d %d" % (h, cid))
+    for cid in list(range(0, 20)) + [127, 128, 255]:
+        for ln in (0, 1, 2, 3, 7, 8, 9, 19, 20, 127, 128, 254, 255, 256, 2**32, 2**64 - 1):
+            cases.append("extlen %d %d" % (cid, ln))
+    return cases
+
+
+GROUPS = {"utf8": utf8_cases, "hash": hash_cases, "iff": iff_cases, "ht": ht_cases, "lyb": lyb_cases}
 
 
 def run_fn(cx, groups):
